@@ -171,6 +171,7 @@ func opInWrite(prop, held, second string, fails bool, bound int) *explore.Scenar
 					vsched.Fail(fam+"|not-idle:registration", "%s: the cancelled stream's registration stays in the connection:\n%s", what, diffStates(idle, st))
 				}
 			}
+			finishDirect(d, w, false) // (wire protocol)
 		},
 	}
 }
@@ -276,6 +277,7 @@ func foreignContextCancel(prop, kind string, bound int) *explore.Scenario {
 			if st := c14State(d); st != idle {
 				vsched.Fail(fam+"|not-idle:"+diffKey(idle, st), "after a stream under a hand-written context was cancelled the connection did not return to its idle state:\n%s", diffStates(idle, st))
 			}
+			finishDirect(d, w, false) // (wire protocol)
 		},
 	}
 }
